@@ -3,3 +3,5 @@ import Bmc.Proofs.C04
 #print axioms Bmc.Proofs.C04.unauthenticated_or_foreign_is_retry
 #print axioms Bmc.Proofs.C04.accepted_satisfies_mac
 #print axioms Bmc.Proofs.C04.tampered_authcode_is_retry
+#print axioms Bmc.Proofs.C04.rmcp_header_cannot_change_the_value
+#print axioms Bmc.Proofs.C04.response_with_any_header
